@@ -119,6 +119,10 @@ func generate(w *mon.W) {
 	}
 }
 
+// the previous parse result and its dump: a later Parse must not change it
+var prevStmts []parser.Statement
+var prevDump, prevSrc string
+
 // Check decides one case.
 func Check(c *Case, r *mon.R) {
 	r.Case = c
@@ -141,6 +145,13 @@ func Check(c *Case, r *mon.R) {
 			r.Violation("", "a program of the grammar is rejected: Parse(%q): %v", pr.Src, err)
 			return
 		}
+		if prevStmts != nil {
+			if d := Dump(prevStmts, 0, true); d != prevDump {
+				r.Violation("", "the tree returned by Parse(%q) changed when Parse(%q) was called afterwards:\n was: %s\n now: %s", prevSrc, pr.Src, prevDump, d)
+				return
+			}
+		}
+		prevStmts, prevSrc, prevDump = stmts, pr.Src, Dump(stmts, 0, true)
 		if d := Diff(stmts, pr.AST, false); d != "" {
 			r.Violation("", "Parse(%q) does not build the tree the grammar prescribes: at %s\n got:  %s\n want: %s", pr.Src, d, Dump(stmts, 0, false), Dump(pr.AST, 0, false))
 			return
